@@ -261,6 +261,10 @@ pub fn cases(ctx: &Ctx) -> Vec<Case> {
                             v.push(Case { op: op.into(), layers, level, data: data.into(), sizes_mib: s.clone(), shape: shape.into(), subset: true, src_read: 0 });
                         }
                     }
+                    if op != "write" && level == levels[0] {
+                        // reading back / repairing a big file stored as a long run of 512-byte blocks
+                        v.push(Case { op: op.into(), layers, level, data: data.into(), sizes_mib: s.clone(), shape: "manyparts".into(), subset: false, src_read: 0 });
+                    }
                     if op == "write" && level == levels[0] {
                         v.push(Case { op: op.into(), layers, level, data: data.into(), sizes_mib: s.clone(), shape: "manyparts".into(), subset: false, src_read: 0 });
                         v.push(Case { op: op.into(), layers, level, data: data.into(), sizes_mib: s.clone(), shape: "shortsource".into(), subset: false, src_read: 0 });
